@@ -53,10 +53,10 @@ cpdef read_decimal(data, writer_schema=None, reader_schema=None):
 
     unscaled_datum = int.from_bytes(data, byteorder="big", signed=True)
 
-    decimal_context.prec = precision
-    return decimal_context.create_decimal(unscaled_datum).scaleb(
-        -scale, decimal_context
-    )
+    # A context per call: setting the precision on a shared module-level
+    # context and then using it is not safe when several threads read decimals
+    context = Context(prec=precision)
+    return context.create_decimal(unscaled_datum).scaleb(-scale, context)
 
 
 cpdef read_time_millis(data, writer_schema=None, reader_schema=None):
